@@ -977,6 +977,11 @@ def apply_op(case, op, cov, mode, log):
             eta = np.ascontiguousarray(eta[::-1])[::-1]
         if layout != 'c':
             cov.inc('probe.indicator_layout.' + layout)
+        if op.get('dtype') == 'int64' and np.all(eta == np.round(eta)) and (
+                np.abs(eta).max() < 2**40):
+            # integer-valued indicators handed over as an integer array
+            eta = eta.astype(np.int64)
+            cov.inc('probe.indicator_dtype.int64')
         ambiguous = False
         if mode.get('dorfler_oracle'):
             try:
@@ -1368,6 +1373,10 @@ def gen_run(seed, params):
         if op['op'] in ('dorfler_iso', 'dorfler_aniso') and (
                 lrng.random() < params.get('p_layout', 0.35)):
             op['layout'] = lrng.choice(['f', 'f', 'strided', 'reversed-view'])
+    for op in ops:
+        if op['op'] in ('dorfler_iso', 'dorfler_aniso') and op.get(
+                'cls') in ('ints', 'exact') and lrng.random() < 0.3:
+            op['dtype'] = 'int64'
     # a second mesh object in the same process (own stream: the runs without
     # it stay what they were)
     drng = stream(seed, 'workload-decoy')
